@@ -1163,6 +1163,23 @@ def exact_distances(ctx: Ctx, rid: str, methods):
                "no matrix-multiplication distance" if not bad else f"torch.cdist in its default compute mode at line(s) {bad}: for more than 25 points it evaluates "
                "|x|^2 + |y|^2 - 2 x.y, which cancels catastrophically away from the origin",
                construct=f"{fi.qualname}:cdist-mm")
+        if fi.module.relpath == "rl4co/utils/ops.py":
+            # ... and a helper returns the Euclidean length itself: no smoothing constant is added under the root or to the result
+            # (`(d2 + 1e-8).sqrt()` makes coincident points 1e-4 apart -- every padded / repeated node then adds to the objective)
+            eps = []
+            for n in ast.walk(fi.node):
+                if isinstance(n, ast.BinOp) and isinstance(n.op, (ast.Add, ast.Sub)):
+                    for o in (n.left, n.right):
+                        if isinstance(o, ast.Constant) and isinstance(o.value, float) and o.value != 0.0:
+                            eps.append((n.lineno, ast.unparse(n)[:50]))
+                if isinstance(n, ast.Call):
+                    for k in n.keywords:
+                        if k.arg == "eps" and not (isinstance(k.value, ast.Constant) and k.value.value in (0, 0.0)):
+                            eps.append((n.lineno, ast.unparse(n)[:50]))
+            ctx.ob(rid, f"{fi.qualname}:no-smoothing-constant", not eps, fi.loc,
+                   "the length is returned as computed" if not eps else f"a float constant is added inside the distance helper: {eps} -- coincident points get a non-zero distance, "
+                   "so the length of a tour with repeated / padded nodes is no longer the objective value",
+                   construct=f"{fi.qualname}:smoothing-constant")
 
 
 def run_thorough(ctx: Ctx):
